@@ -95,6 +95,60 @@ func distinctNames(r *rand.Rand, table []string, k int) []string {
 	return out
 }
 
+var byNumberCache = map[string][]string{}
+
+// runNames returns k names of the table whose syscall numbers are neighbours in the table's
+// number order (a consecutive run wherever the table has no hole), with stride 1 or 2,
+// ascending, descending or shuffled.
+func runNames(r *rand.Rand, archName string, k int) []string {
+	names, ok := byNumberCache[archName]
+	if !ok {
+		info := ArchInfo(archName)
+		names = append([]string{}, TableNames(archName)...)
+		sort.SliceStable(names, func(i, j int) bool { return info.SyscallNames[names[i]] < info.SyscallNames[names[j]] })
+		byNumberCache[archName] = names
+	}
+	stride := 1
+	if r.Intn(5) == 0 {
+		stride = 2
+	}
+	if k*stride > len(names) {
+		stride = 1
+	}
+	if k > len(names) {
+		k = len(names)
+	}
+	start := 0
+	if r.Intn(5) != 0 { // most runs do not start at the lowest number
+		start = r.Intn(len(names) - k*stride + 1)
+	}
+	out := make([]string, 0, k)
+	for i := 0; i < k; i++ {
+		out = append(out, names[start+i*stride])
+	}
+	switch r.Intn(3) {
+	case 1:
+		for i, j := 0, len(out)-1; i < j; i, j = i+1, j-1 {
+			out[i], out[j] = out[j], out[i]
+		}
+	case 2:
+		r.Shuffle(len(out), func(i, j int) { out[i], out[j] = out[j], out[i] })
+	}
+	return out
+}
+
+func dedup(xs []string) []string {
+	seen := map[string]bool{}
+	out := xs[:0:0]
+	for _, x := range xs {
+		if !seen[x] {
+			seen[x] = true
+			out = append(out, x)
+		}
+	}
+	return out
+}
+
 var groupSizes = []int{0, 1, 1, 2, 2, 3, 5, 10, 10, 40, 120, 254, 255, 256, 257, 258}
 
 // GenValid generates a policy that is free of the defects of C07.
@@ -136,6 +190,11 @@ func GenValid(r *rand.Rand, profile string) *Policy {
 			}
 		}
 		used := distinctNames(r, table, size+6)
+		if size >= 2 && size < len(used) && r.Intn(4) == 0 {
+			// names whose numbers form a run (what a range-check optimisation would look for)
+			used = append(runNames(r, p.Arch, size), used[size:]...)
+			used = dedup(used)
+		}
 		nUn := size
 		if nUn > len(used) {
 			nUn = len(used)
